@@ -250,6 +250,40 @@ inline void runRoundTrip(Ctx& C) {
     a.a.push_back(ob);
     checkRoundTripDoc(C, a, 0);
   }
+  // containers on both sides of 65535/65536 (MessagePack round trip; built by deserializeMsgPack from a reference
+  // encoding because member-by-member construction through the API is quadratic)
+  for (size_t n : {size_t(65535), size_t(65536)}) {
+    for (int isMap = 0; isMap < 2; isMap++) {
+      if (C.expired()) break;
+      if (!C.take()) continue;
+      std::string key = std::string("doc:big-") + (isMap ? "map" : "array") + "-" + std::to_string(n) + "|op=roundtripM";
+      C.begin(key);
+      MValue m = isMap ? MValue::object() : MValue::array();
+      char kb[16];
+      for (size_t i = 0; i < n; i++) {
+        if (isMap) { snprintf(kb, sizeof kb, "k%05zu", i); m.o.emplace_back(kb, MValue::integer(i128(i % 100))); }
+        else m.a.push_back(MValue::integer(i128(i % 100)));
+      }
+      std::string in = verif::refmp::encode(m), out, out2;
+      JsonDocument d1, d2;
+      if (deserializeMsgPack(d1, in.data(), in.size()) != DeserializationError::Ok) C.fail("roundtripM-big", "reference encoding not accepted");
+      serializeMsgPack(d1, out);
+      DeserializationError e2 = deserializeMsgPack(d2, out.data(), out.size());
+      if (e2 != DeserializationError::Ok) C.fail("roundtripM-big", std::string("deserializeMsgPack(serializeMsgPack(d)) returned ") + e2.c_str());
+      else {
+        if (d2.is<JsonObject>() != (isMap != 0) || d2.is<JsonArray>() != (isMap == 0) || d2.size() != n)
+          C.fail("roundtripM-big", "the round trip changed the kind or size: size " + std::to_string(d2.size()) + ", object=" + std::to_string(int(d2.is<JsonObject>())));
+        serializeMsgPack(d2, out2);
+        if (out2 != out) C.fail("roundtripM-big", "re-serialization is not byte-identical");
+        MValue back;
+        size_t used = 0;
+        if (verif::refmp::decode(out, back, &used) != verif::refmp::Ok || used != out.size() || mtext(back) != mtext(m))
+          C.fail("roundtripM-big", "the independent decoder does not get the document back from serializeMsgPack (first bytes " + hex(out.substr(0, 6)) + ")");
+      }
+      C.nontrivial();
+      C.end();
+    }
+  }
   // containers on both sides of 15/16
   for (size_t n : {size_t(15), size_t(16), size_t(17), size_t(300)}) {
     if (C.expired()) break;
